@@ -213,6 +213,11 @@ pub mod hm {
             self.items.push((k, v));
             None
         }
+        /// Harness set-up only: append an entry whose key the caller knows to be new (no
+        /// comparison, hence no "replace and drop the old value" path for symex to explore).
+        pub fn push_unique(&mut self, k: K, v: V) {
+            self.items.push((k, v));
+        }
         pub fn get<Q: ?Sized + Eq>(&self, k: &Q) -> Option<&V>
         where
             K: Borrow<Q>,
@@ -268,4 +273,34 @@ pub mod hm {
             self.items.into_iter()
         }
     }
+}
+
+// ---------------------------------------------------------------------------------------------
+/// `&str` view of harness-built bytes without running std's UTF-8 validator symbolically (its
+/// word-at-a-time fast path with `align_offset` is expensive in CBMC). The caller guarantees
+/// well-formedness by explicit assumptions on the bytes (see `utf8_ok_c3a9`).
+pub fn str_from(b: &[u8]) -> &str {
+    unsafe { std::str::from_utf8_unchecked(b) }
+}
+/// Validity predicate for byte strings over ASCII plus the single two-byte character U+00E9
+/// (0xC3 0xA9): 0xC3 must be followed by 0xA9, 0xA9 must follow 0xC3, everything else < 0x80.
+pub fn utf8_ok_c3a9(b: &[u8]) -> bool {
+    let mut i = 0;
+    let mut ok = true;
+    while i < b.len() {
+        let c = b[i];
+        if c == 0xC3 {
+            if !(i + 1 < b.len() && b[i + 1] == 0xA9) {
+                ok = false;
+            }
+        } else if c == 0xA9 {
+            if !(i > 0 && b[i - 1] == 0xC3) {
+                ok = false;
+            }
+        } else if c >= 0x80 {
+            ok = false;
+        }
+        i += 1;
+    }
+    ok
 }
